@@ -12,6 +12,7 @@ CONSTANTS
   MaxOps = 6
   Dev = {"stale-deliverer"}
   Anns <- MCAnns
+  InvOf <- MCInvOf
 INIT Init
 NEXT Next
 VIEW view
